@@ -60,11 +60,37 @@ class RawMemory(pycore.HashMemory):
             self.on_access(pycore.canon(address))
 
 
+class FillMemory(RawMemory):
+    """RawMemory whose unlisted bytes read as one constant (case['fill']) instead of the hash fill: the memory model of
+    the snapshot stepper (`image.get(addr, default_memory_value)`), see c04_ctx."""
+
+    def __init__(self, fill: int, overrides: Optional[Dict[int, int]] = None, log_reads: bool = False) -> None:
+        super().__init__(0, overrides, log_reads)
+        self.fill = fill & 0xFF
+
+    def peek(self, a: int) -> int:
+        v = self.over.get(pycore.canon(a))
+        return self.fill if v is None else v
+
+
+def case_memory(case: Dict[str, Any], log_reads: bool = False) -> RawMemory:
+    """The memory a case describes: listed bytes over the hash fill, or over the constant case['fill'] when present."""
+    over = {pycore.canon(a): v & 0xFF for a, v in case.get("mem", [])}
+    if case.get("fill") is not None:
+        return FillMemory(int(case["fill"]), over, log_reads)
+    return RawMemory(int(case.get("seed", 0)), over, log_reads)
+
+
+# other public entry points that execute one instruction (case['entry'] -> function(case) -> observation dict with the
+# keys of pycore.step; 'reads' / 'power' None = the entry point does not expose them).  Filled by c04_ctx.
+ENTRY_EXEC: Dict[str, Any] = {}
+
+
 def _make_emulator(case: Dict[str, Any]) -> Tuple[Any, RawMemory]:
     """pycore.make_emulator with the raw-address logging memory."""
     from sc62015.pysc62015.emulator import Emulator
 
-    mem = RawMemory(int(case.get("seed", 0)), {pycore.canon(a): v & 0xFF for a, v in case.get("mem", [])}, True)
+    mem = case_memory(case, True)
     emu = Emulator(mem, reset_on_init=False)  # type: ignore[arg-type]
     pycore.set_regs(emu, case.get("regs", {}))
     emu.state.halted = case.get("power", "running") != "running"
@@ -75,6 +101,8 @@ def execute(case: Dict[str, Any]) -> Dict[str, Any]:
     """One Emulator.execute_instruction on a HashMemory; data reads are separated from instruction fetch by
     switching the read log off while Emulator.decode_instruction runs (the decoder looks one instruction ahead,
     so fetch is not simply [pc, pc+len)); execute_instruction re-reads the opcode byte once afterwards."""
+    if case.get("entry"):
+        return ENTRY_EXEC[case["entry"]](case)
     emu, mem = _make_emulator(case)
     prior_note = None
     orig = emu.decode_instruction
@@ -235,7 +263,8 @@ def loc_compare(e: RS.Expect, init_regs: Dict[str, int], obs: Dict[str, Any], op
     out: List[Tuple[str, str, str, str]] = []
     w_obs = {int(a) for a, _ in obs["writes"]}
     w_exp = set(e.writes)
-    r_obs = set(int(a) for a in obs["reads"])
+    reads_seen = obs.get("reads") is not None       # None: the entry point does not expose its reads (c04_ctx)
+    r_obs = set(int(a) for a in (obs["reads"] if reads_seen else []))
     r_exp = e.rd_data | e.rd_addr
     for space in ("imem", "emem"):
         missing = {a for a in w_exp - w_obs if _space(a) == space}
@@ -248,7 +277,7 @@ def loc_compare(e: RS.Expect, init_regs: Dict[str, int], obs: Dict[str, Any], op
                 kinds.append(f"write to non-denoted {space} location")
             out.append(("writes", space, "; ".join(kinds),
                         f"writes expected {_fmt_addrs(w_exp)} observed {_fmt_addrs(w_obs)}"))
-        if e.reads_checked:
+        if e.reads_checked and reads_seen:
             missing = {a for a in r_exp - r_obs if _space(a) == space}
             extra = {a for a in r_obs - r_exp if _space(a) == space}
             if missing or extra:
@@ -326,7 +355,7 @@ def val_compare(e: RS.Expect, init_regs: Dict[str, int], obs: Dict[str, Any]) ->
         out.append(("flag:Z", f"expected Z={e.z} observed Z={(f1 >> 1) & 1}", f"F before {f0:#04x} after {f1:#04x}"))
     if e.f_hi and (f0 ^ f1) & 0xFC:
         out.append(("flag:other", "F bits 2-7 not preserved", f"F before {f0:#04x} after {f1:#04x}"))
-    if e.halted is not None:
+    if e.halted is not None and obs.get("power") is not None:
         halted = obs["power"] != "running"
         if halted != e.halted:
             out.append(("power", f"expected halted={e.halted} observed halted={halted}", ""))
@@ -348,7 +377,7 @@ def classify_mode_mismatch(mn: str, ops: List[Tuple[Any, ...]], regs: Dict[str, 
     def im(i: int) -> Tuple[Any, ...]:
         return ops[i] if ops[i][0] == "imem" else ops[i][1]
 
-    obs_imem = sorted({int(a) - IMEM for a in obs["reads"] if int(a) >= IMEM} |
+    obs_imem = sorted({int(a) - IMEM for a in (obs.get("reads") or []) if int(a) >= IMEM} |
                       {int(a) - IMEM for a, _ in obs["writes"] if int(a) >= IMEM})
     bp, px, py = peek(IMEM + 0xEC), peek(IMEM + 0xED), peek(IMEM + 0xEE)
 
@@ -429,6 +458,7 @@ TAG_FOLLOW = " [depends on the following instruction]"
 TAG_TEMPS = " [depends on the lifter's TEMP registers at entry]"
 TAG_TOPBIT = " [I >= 8000h]"
 TAG_PRIOR = " [depends on the previous operation on the same emulator]"
+TAG_ENTRY = " [depends on the entry point]"
 TAG_PAGE = " [encoding straddles a 64 KiB page boundary]"
 TAG_PAGE_NEXT = " [a 64 KiB page boundary lies right behind the instruction]"
 TAG_POWER = " [core halted at instruction entry: HALT/OFF executed earlier, not woken]"
@@ -479,6 +509,12 @@ def judge(case: Dict[str, Any], want_obs: bool = False, _nofollow: bool = False)
     # depend on the bytes after it (fusion(): "Bytes *after* instr1 ... must not affect instr1").
     ctx_code = S.code_of(case, CODE_WINDOW)
     r0 = TP.tokens(ctx_code)
+    if r0 is None and case.get("ilen"):
+        # generated dimension 'tail' (c04_ctx): the case states how long the encoding under test is, so a decoder that
+        # rejects it only in this context (because of the bytes BEHIND it) does not take the case out of the domain
+        r0 = TP.tokens(ctx_code[:int(case["ilen"])] + G.NOP_PAD)
+        if r0 is not None and r0[1] != int(case["ilen"]):
+            r0 = None
     if r0 is None:
         j.status = "undecodable"
         return j
@@ -511,7 +547,7 @@ def judge(case: Dict[str, Any], want_obs: bool = False, _nofollow: bool = False)
         j.status = "unmodelled"
         j.reason = dom
         return j
-    init = pycore.HashMemory(int(case.get("seed", 0)), {pycore.canon(a): v & 0xFF for a, v in case.get("mem", [])})
+    init = case_memory(case)
     peek = init.peek
     try:
         exps = RS.expectations(mn, ops, regs, peek, length)
@@ -607,6 +643,9 @@ def judge(case: Dict[str, Any], want_obs: bool = False, _nofollow: bool = False)
             compare(c2, TAG_POWER)
         if case.get("coexec"):
             compare({k: v for k, v in case.items() if k != "coexec"}, TAG_COEXEC)
+        if case.get("entry"):
+            # same instruction, registers and memory through Emulator.execute_instruction
+            compare({k: v for k, v in case.items() if k != "entry"}, TAG_ENTRY)
         if (pc & 0xFFFF) + CODE_WINDOW > 0x10000 and pc >= RELOCATE_BY:
             compare(relocated(case), TAG_PAGE if (pc & 0xFFFF) + length > 0x10000 else TAG_PAGE_NEXT)
         j.loc = [(sub, sym + t, det) for (sub, sym, det), t in zip(j.loc, loc_tags)]
@@ -921,7 +960,7 @@ def shrink_case(prop: str, v: Violation) -> Violation:
     """Field-wise delta debugging: simplify registers / drop memory overrides while the fingerprint persists."""
     import time as _t
     t0 = _t.time()
-    case = {k: v.case[k] for k in ("regs", "power", "seed", "mem", "steps", "prior", "coexec") if k in v.case}
+    case = {k: v.case[k] for k in ("regs", "power", "seed", "mem", "steps", "prior", "coexec", "ilen", "fill", "entry") if k in v.case}
     key = v.key()
 
     def same(c: Dict[str, Any]) -> Optional[Violation]:
